@@ -97,12 +97,26 @@ class BasicDSG(DSG):
             removed_edges |= derived_edges
             removed_nodes |= derived_nodes
 
+        # Nodes in a derivation cycle that is not derived by any of the start nodes have no floating node to start
+        # from: also remove everything that cannot be reached from the start nodes
+        removed_nodes |= set(graph.nodes) - self._get_nodes_derived_from(start_nodes)
+
         if len(removed_edges) > 0 or len(removed_nodes) > 0:
             dsg = dsg.get_for_adjusted(removed_edges=removed_edges, removed_nodes=removed_nodes)
 
         if initialize_choices:
             return dsg.initialize_choices()
         return dsg
+
+    def _get_nodes_derived_from(self, start_nodes: Set[DSGNode]) -> Set[DSGNode]:
+        derived_nodes = set(start_nodes)
+        nodes_to_visit = list(start_nodes)
+        while len(nodes_to_visit) > 0:
+            for edge in iter_out_edges(self._graph, nodes_to_visit.pop()):
+                if get_edge_type(edge) in {EdgeType.DERIVES, EdgeType.CONNECTS} and edge[1] not in derived_nodes:
+                    derived_nodes.add(edge[1])
+                    nodes_to_visit.append(edge[1])
+        return derived_nodes
 
     def _get_alternative_start_nodes(self) -> Set[DSGNode]:
         return self._get_floating_nodes()
